@@ -262,6 +262,28 @@ def r5_registration(ctx):
             atoms = [a for _, a in fd.guard_atoms(rm[0].b)]
             ok = any(a[0] == 'bool' and a[1][0] == 'field' and a[1][2] == 'resolved' and a[2] is False for a in atoms)
             ctx.check(ok, 'drop-removes-unless-resolved', "dropping an unresolved handle removes its entry (a dropped sleep leaves no stale waker)", rm[0].where(), [show_atom(a) for a in atoms])
+    # typestate: `handle` is Some only while a registration for the CURRENT deadline exists; whoever changes the deadline releases it
+    n_dw = 0
+    for f in P.fn_list:
+        if not f.key.startswith('des::time::sleep::') or f.kind == 'promoted':
+            continue
+        dws = [w for w in f.writes_to_field('deadline') if w[2]['p']['pr'] and w[2]['p']['pr'][0]['k'] == 'deref']   # stores through the pin projection, not struct construction
+        if not dws:
+            continue
+        for path, outcome, decs in fn_paths(ctx, f):
+            if outcome != 'return':
+                continue
+            blocks = set(path)
+            if not any(b in blocks for b, _, _ in dws):
+                continue
+            n_dw += 1
+            effs = path_effects(f, path)
+            released = any(e[0] == 'c' and e[1].name == 'std::option::Option::take' and receiver_field(e[2][0]) == 'handle' for e in effs) or \
+                any(e[0] == 'w' and e[2] == 'handle' for e in effs)
+            ctx.check(released, 'deadline-change-releases-handle:%s' % f.key.split('::')[-1],
+                      'whenever a sleep\'s deadline is changed its registration handle is released, so that the next poll registers at the new deadline '
+                      '(a kept handle makes poll believe it is still scheduled after the old slot fired)', f.where_path(path))
+    ctx.floor('deadline-changing paths of Sleep', n_dw, 1)
     # risk pattern: a handle returned by TimerSlotEntryHandle::reset is kept only if reset defuses the consumed handle
     fr = ctx.anchor(TH + '::reset')
     if fr:
